@@ -31,7 +31,7 @@ let p_entry (k, e) =
                      p_list e.e_via; p_list e.e_deps]
 let p_err = function
   | FailMinLen -> "FailMinLen" | FailHash -> "FailHash" | FailUrl -> "FailUrl"
-  | ErrStartswithArgs -> "ErrStartswithArgs" | ErrIndex -> "ErrIndex"
+  | ErrIndex -> "ErrIndex"
 let p_dict d = "OK " ^ string_of_int (List.length d) ^ String.concat "" (List.map (fun ke -> " " ^ p_entry ke) d)
 let b2s b = if b then "1" else "0"
 
@@ -51,14 +51,13 @@ let handle line =
     (match parse_constraint data lock wd with Ok e -> p_dict [([], e)] | Err e -> "ERR " ^ p_err e)
   | "W" ->
     let v = next_view st in
-    b2s (wf_view v) ^ " " ^ b2s (fl_guard v) ^ " " ^ cl_hex (write_bazel v)
+    b2s (wf_view v) ^ " " ^ cl_hex (write_bazel v)
   | "L" ->
     let lock = next_label st in
     let c = next_opt st next_str in
     let v = next_view st in
     p_dict (lock_view lock c v)
   | "S" -> let s = next_str st in cl_hex (sanitize s) ^ " " ^ cl_hex (norm s) ^ " " ^ b2s (pep508_name s)
-  | "U" -> let b = next_str st in let u = next_str st in cl_hex (urljoin_rel b u)
   | "X" -> let s = next_str st in p_list (splitlines s)
   | c -> failwith ("bad command " ^ c)
 
